@@ -56,10 +56,53 @@ def programs(tier):
     return out
 
 
+def _twin_tree(prog, env, ctx, vals=None):
+    """The same program over *other* leaf objects with the same names, engines and columns but other rows."""
+    from ..prog import Env as _Env
+
+    env2 = _Env(symbolic=ctx is not None)
+    env2.engines = env.engines
+    env2.tags = env.tags
+    env2.metadata = env.metadata
+    env2.bind = env.bind
+    names = repr(prog)
+    if "'X'" in names:
+        rows = [{c: (ctx.int(f"X2.{c}{i}") if ctx is not None else int((vals or {}).get(f"X2.{c}{i}", 7 + i))) for c in "abc"} for i in range(N)]
+        env2.add_iter_leaf("X", "abc", rows, engine="it1")
+    if "'S'" in names:
+        # same table object (same FROM clause), other leaf relation object
+        from lsst.daf.relation import sql as _sql
+        s_old = env.leaves["S"].skip_to
+        env2.leaves["S"] = env.engines["sq"].make_leaf(s_old.columns, payload=s_old.payload, name="S")
+        env2.tables = env.tables
+    for k in ("0i", "0s", "Ii", "Is"):
+        if k in env.leaves:
+            env2.leaves[k] = env.leaves[k]
+    def named(n, depth=0):
+        if not isinstance(n, tuple) or not n or n[0] == "leaf":
+            return n
+        if n[0] == "mat" and len(n) == 2:
+            return ("mat", named(n[1], depth + 1), f"w{depth}")
+        return tuple(named(x, depth + 1) if isinstance(x, tuple) and x and isinstance(x[0], str) else x for x in n)
+    return build(prog, env2)
+
+
+def _explicit_names(n, depth=0):
+    if not isinstance(n, tuple) or not n or n[0] == "leaf":
+        return n
+    if n[0] == "mat" and len(n) == 2:
+        return ("mat", _explicit_names(n[1], depth + 1), f"t{depth}")
+    return tuple(_explicit_names(x, depth + 1) if isinstance(x, tuple) and x and isinstance(x[0], str) and x[0] in (
+        "leaf", "calc", "proj", "sel", "dedup", "sort", "slice", "chain", "join", "mat", "xfer") else x for x in n)
+
+
 def shapes(tier, seed):
     progs = programs(tier)
     size = 8
-    return [{"progs": progs[i:i + size]} for i in range(0, len(progs), size)]
+    out = [{"progs": progs[i:i + size]} for i in range(0, len(progs), size)]
+    twins = [_explicit_names(p) for p in progs if "'X'" in repr(p) and len(ops_of(p)) <= 3][::3]
+    out += [{"progs": twins[i:i + size], "twin": True} for i in range(0, len(twins), size)]
+    return out
 
 
 def cost(shape):
@@ -152,10 +195,14 @@ def unevaluable(source):
     return None
 
 
-def run_one(prog, env, db, times=2):
-    """process() `times` times, evaluate the result; -> (problems, results, log)"""
+def run_one(prog, env, db, times=2, warm=None):
+    """process() `times` times, evaluate the result; -> (problems, results, log).  `warm`: an equal but distinct tree
+    (other leaf objects of the same names) processed first by the same Processor."""
     log = []
     proc = symproc.make_processor(db, log)
+    if warm is not None:
+        symproc.evaluate(proc.process(warm), db)
+        log.clear()
     tree = build(prog, env)
     problems = []
     results = []
@@ -203,7 +250,8 @@ def run_shape(shape, tier):
             templates.declare(ctx, env, params, cons)
             db = symproc.SymDB(env)
             try:
-                tree, problems, results, hooks = run_one(prog, env, db)
+                warm = _twin_tree(prog, env, ctx) if shape.get("twin") else None
+                tree, problems, results, hooks = run_one(prog, env, db, warm=warm)
             except (ColumnError, RelationalAlgebraError) as e:
                 raise Skip(f"rejected at construction: {type(e).__name__}")
             except Exception as e:  # noqa: BLE001
@@ -235,12 +283,15 @@ def run_shape(shape, tier):
         for cx in res.cex[:1]:
             m = cx["model"]
             bind = templates.bind_concrete(params, m)
+            if shape.get("twin"):
+                m = dict(m)
+                m["__twin__"] = True
             fails, symptom, detail = concrete_check(prog, m, bind)
             if not fails:
                 return {"status": "harness-error", "detail": f"counterexample does not reproduce: {fmt(prog)} {bind} {cx['label']} {cx['info']}", **tot}
             mprog = common.minimise(prog, lambda p: concrete_check(p, m, bind)[1] == symptom)
             vios.append({"site": f"{c14._sig(mprog)}/{symptom}", "summary": f"{fmt(mprog)} bind={bind}: {symptom} {concrete_check(mprog, m, bind)[2]}",
-                         "replay": {"prog": to_jsonable(mprog), "model": {k: v for k, v in m.items() if k.startswith(("X.", "S."))}, "bind": bind,
+                         "replay": {"prog": to_jsonable(mprog), "model": {k: v for k, v in m.items() if k.startswith(("X.", "S.", "X2.", "__twin"))}, "bind": bind,
                                     "symptom": symptom}, "original_program": fmt(prog)})
     out = dict(tot)
     out["functions"] = sorted(functions)
@@ -272,7 +323,8 @@ def concrete_check(prog, model, bind):
     env.bind = dict(bind)
     db = symproc.SymDB(env)
     try:
-        tree, problems, results, hooks = run_one(prog, env, db)
+        warm = _twin_tree(prog, env, None, model) if ("'t0'" in repr(prog) or "'t1'" in repr(prog) or "'t2'" in repr(prog) or model.get("__twin__")) else None
+        tree, problems, results, hooks = run_one(prog, env, db, warm=warm)
     except (ColumnError, RelationalAlgebraError):
         return False, "rejected", None
     except Exception as e:  # noqa: BLE001
